@@ -28,4 +28,8 @@ def diag (s : R × R) : M2 R := ⟨s.1, Num.zero, Num.zero, s.2⟩
 def one : M2 R := ⟨Num.one, Num.zero, Num.zero, Num.one⟩
 end M2
 
+/-- Python/torch `remainder(x, y)` for `x ∈ [-y, 2y)` (the only range reached: |x| ≤ 2π) -/
+def rem1 (x y : R) : R :=
+  if Num.ltb x Num.zero then x + y else if Num.leb y x then x - y else x
+
 end QuantemModel.Aberration
